@@ -194,6 +194,10 @@ def wl_r2c(ctx, idx, rng):
     if rng.random() < 0.05:
         ctx.call("real_to_complex", pb.utils.real_to_complex, x.astype(np.complex128), expect=ValueError, where="real_to_complex(complex)")
         ctx.call("real_to_complex", pb.utils.real_to_complex, x.astype(np.complex64), expect=ValueError, where="real_to_complex(complex64)")
+        # complex input must be refused whatever its shape, also when the converted axis is empty
+        for shp, ax in (((0,), 0), ((0, 4, 2), 0), ((3, 0), 1), ((3, 0), -1), ((2, 0, 2), 1)):
+            ctx.call("real_to_complex", pb.utils.real_to_complex, np.zeros(shp, dtype=gen.pick(rng, [np.complex64, np.complex128])), axis=ax,
+                     expect=ValueError, where=f"real_to_complex(complex, shape {shp}, axis {ax})")
 
 
 def wl_long(ctx, idx, rng):
